@@ -350,7 +350,7 @@ def c08(res, tier, seed):
     res.cov["rule"] = ("(1) 7 corpus rule sets saved in 3 processes (glibc heap, perturbed glibc heap, ASan heap): byte-identical images; (2) random conditions, text/hex/regex "
                        "strings and scanner-protocol rule sets compiled, saved (file and stream), ORIGINAL AND COMPILER DESTROYED, loaded (file / item-wise stream), scanned: "
                        "observations judged by Cond/TextMatch/ReMatch/Scan specs in TLC; (3) original usable after save; distinct = distinct (rule, buffer, path)")
-    res.assumptions += ["pointer values written raw into the image are detected through differing heap layouts (ASLR + different allocators), not by a relocation audit"]
+    res.assumptions += ["an address of the arena stored in a slot that is not 8-byte aligned data of a buffer is seen by the audit at every byte offset; addresses of other heap blocks are seen only in registered slots (dangling)"]
 
 
 def c19(res, tier, seed):
